@@ -69,7 +69,8 @@ P = {
   text="Theorems over Pileup.v (CIGAR walk of _parse_read, eligibility filter, MNP merge, quality binning, _make_coverage folding) for every read "
        "list, CIGAR and gene view: depth at every position = number of eligible spanning reads (M/=/X/D once, S/I consume no reference), substitution "
        "and reference counts inside the RefSeq-mapped part, complete catalogued multi-substitution counted once at its first position, ineligible "
-       "reads contribute nothing, qualities kept (binned), result independent of read order, insertions keyed at the next base. " + TIE +
+       "reads contribute nothing, qualities kept (binned), result independent of read order, insertions keyed at the next base; the locus test and fetch window of the loader are regenerated from "
+       "sam.py and proved equal to the model's (C06_tie_in_region, C06_tie_window). " + TIE +
        "Reads are generated (all CIGAR ops, clips, indels, MNPs, qualities, flags, positions at region borders), written to real BAM files with "
        "pysam and loaded through Sample; table, phases and per-read observations are compared with the model, and the pileup predicate is recomputed "
        "from the reads alone.",
@@ -100,7 +101,7 @@ P = {
        "reported candidate descends from a passed major candidate of a recorded structure, empty stage -> error. Chain-consistency clauses "
        "(copies match structure, minors refine majors one to one, diplotype lists each allele once) are theorems of C02/C03/C04/C11 and are "
        "evaluated here on the implementation's reported solutions. " + TIE + "Simulated noisy samples with several surviving structures/majors go "
-       "through genotype(); the stage results are recorded and Select's selection (vm_compute) is compared with the reported list and scores.",
+       "through genotype(), competing structures are injected behind estimate_cn, and the candidates of real runs are replayed with several synthetic stage-score assignments; the stage results are recorded and Select's selection (vm_compute) is compared with the reported list and scores.",
   note=TRUST + "pysam, simulator, CBC. Decision expressions of genotype.py are regenerated by gen_exprs.py (Exprs_here.v).",
   tech="Coq proof over executable Gallina model (selection + score carry-over) + translator for decision expressions + differential correspondence on recorded stage results"),
  "C12": dict(
@@ -125,7 +126,7 @@ P = {
        "major/minor filters on opposite strands. Decided by running the real stages on the same "
        "evidence transported through the RefSeq maps between hg19/hg38 (shipped genes) and between opposite strands (generated databases), and on "
        "simulated alignments against each build; structures, majors, minors, scores and RefSeq-expressed added/lost variants are compared.",
-  note=TRUST + "pysam, simulator, CBC, indelpost. Open findings (opposite-strand same-site sub+del, phase term, indel support anchor, realigner, exact ties) in known_findings.json.",
+  note=TRUST + "pysam, simulator, CBC, indelpost. Open findings (opposite-strand same-site sub+del and adjacent ins+sub, phase term, indel support anchor, realigner incl. its dependence on the absolute coordinate, exact ties) in known_findings.json.",
   tech="Coq proof over abstract transport model (partial) + two-build differential on the implementation"),
  "C14": dict(
   text="PARTIAL proof + observation. Proved over Frame.v: an operation whose transcription passes the ownership analysis writes no pre-existing "
@@ -152,7 +153,7 @@ P = {
        "absent sites homozygous reference; REF-mismatch re-expression; non-diploid/missing/N-position/other-shape records change nothing; "
        "AsShipped = _load_vcf + _make_coverage + Coverage.__init__ step by step, REFUTED by witnesses for insertions and both MNP spellings (open "
        "findings); with the repair 55bf4fc inexpressible alleles are ignored (theorem). " + TIE + "Generated bgzipped+tabixed VCFs (1-3 samples, "
-       "phased or not, 0/0..1/2, unrelated/REF-mismatch/odd records) over generated and shipped genes are loaded by the real Sample; table and "
+       "phased or not, 0/0..1/2, multi-allelic sites as one record or as split bi-allelic records, unrelated/REF-mismatch/odd records) over generated and shipped genes are loaded by the real Sample; table and "
        "accessors are compared with AsShipped, the predicate = Fixed is evaluated on the implementation's accessors, and heterozygous catalogued "
        "alleles are genotyped end to end.",
   note=TRUST + "pysam/htslib VCF writing/decoding, PyYAML. Open findings: insertion support, MNP (adjacent, one record) support and the het calls that depend on them.",
@@ -161,14 +162,14 @@ P = {
   text="Theorems over Dump.v (_dump_alignments encoding, _load_dump decoding, profile overrides, sample naming): decode(encode(state)) gives the "
        "same coverage table, neutral-region counts, indel table, phases and fusion counters for every sample state (variant Fixed; the old aliasing "
        "writer is refuted by witness, repaired by 0cb63f3); the stages consume only decoded fields. " + TIE + "Simulated samples (indels, several "
-       "structures, deletions outside the RefSeq window) and the shipped NA10860 BAM are genotyped with --debug and again from the archive through "
+       "structures, deletions outside the RefSeq window, estimated or supplied (--cn) structure, non-default parameters incl. those the loader resets) and the shipped NA10860 BAM are genotyped with --debug and again from the archive through "
        "the real CLI path; archive content is compared with encode, reader state with decode, results and output files byte for byte.",
   note=TRUST + "pickle, gzip, tar, pysam, CBC determinism within one process.",
   tech="Coq proof over executable Gallina model (encode/decode round trip) + differential correspondence and end-to-end replay on real archives"),
  "C19": dict(
   text="Theorems over Guards.v (the guards of Sample(), Coverage, cn.py and genotype.py in order, and the simple-format line protocol): for the "
        "repaired guard set no call is reported when the locus has no reads, the average depth is below the minimum, or the neutral region is empty "
-       "- whatever the structure source - and a pseudogene-only sample is still a whole-gene deletion; shipped switches are refuted by witnesses "
+       "- whatever the structure source - and a pseudogene-only sample is still a whole-gene deletion; the guard expressions of genotype.py, coverage.py and cn.py are regenerated and proved equal to the model's (C19_tie_*); shipped switches are refuted by witnesses "
        "(supplied-structure guard repaired by 93648b9; simple-format line and boundary-read findings open). " + TIE + "Simulated BAMs whose reads "
        "avoid the locus / are thin / cover only the pseudogene / avoid the neutral region are run through genotype() and the CLI in every output "
        "format, estimated and supplied structure; outcomes are compared with the model and the predicate is evaluated on outputs.",
